@@ -604,6 +604,15 @@ func (L *prodLog) genEdits(r *gen.Rand, byteBudget int, light bool, yield func(e
 			L.jsonTypeEdits(i, yield)
 		}
 	}
+
+	// --- data added around / inside an entry without touching its bytes (around.go): a sample of the catalogue per entry
+	nAdd := 3
+	if light && L.hist == nil {
+		nAdd = 2 // thorough tier, 5 000 logs
+	}
+	for _, i := range L.prot {
+		L.addedSampled(r, i, nAdd, yield)
+	}
 }
 
 func (L *prodLog) jsonEdits(r *gen.Rand, i int, yield func(edit)) {
